@@ -222,6 +222,10 @@ dt_get_wday(struct dt_d_s that)
 	case DT_YD:
 		return __yd_get_wday(that.yd);
 	case DT_UMMULQURA:
+	case DT_LDN:
+	case DT_JDN:
+	case DT_MDN:
+		/* day numbers know their weekday as well */
 		return __daisy_get_wday(dt_conv_to_daisy(that));
 	default:
 	case DT_DUNK:
